@@ -140,6 +140,27 @@ func scenarios() []scenario {
 			w.put("lib1/m1.jq", mod(nil, fn("g", 0)))
 			w.setMain(mod([]*imp{importAs("m1", "a")}, fn("top", 0, cf("initf", 0))))
 		}},
+		{"home-jq-file-imports-with-relative-search", func(w *world) {
+			// relative `search` entries of the init file's own imports are resolved against the
+			// directory that contains ~/.jq (not its parent, not the working directory)
+			basic(w)
+			w.rawPaths = []string{"~/.jq", w.abs("lib1")}
+			w.put("home/jqlib/x.jq", mod(nil, fn("f", 0)))
+			w.put("jqlib/x.jq", mod(nil, fn("f", 0), fn("wrong", 0)))
+			w.put("cwd/jqlib/x.jq", mod(nil, fn("f", 0), fn("wrongcwd", 0)))
+			w.putData("home/jqlib/d.json", 2)
+			w.put("home/.jq", mod([]*imp{importAs("x", "x").search("./jqlib"), importData("d", "hd").search("jqlib")}, fn("initf", 0, cf("x::f", 0), cv("hd"))))
+			w.put("lib1/m1.jq", mod(nil, fn("g", 0)))
+			w.setMain(mod([]*imp{importAs("m1", "a")}, fn("top", 0, cf("initf", 0))))
+		}},
+		{"home-jq-file-includes-with-relative-search", func(w *world) {
+			basic(w)
+			w.rawPaths = []string{"~/.jq"}
+			w.put("home/sub/inc.jq", mod(nil, fn("incf", 0)))
+			w.put("sub/inc.jq", mod(nil, fn("incf", 0), fn("wrong", 0)))
+			w.put("home/.jq", mod([]*imp{include("inc").search("./sub")}, fn("initf", 0, cf("incf", 0))))
+			w.setMain(mod(nil, fn("top", 0, cf("initf", 0), cf("incf", 0))))
+		}},
 		{"home-jq-directory-is-a-search-directory", func(w *world) {
 			basic(w)
 			w.rawPaths = []string{"~/.jq"}
